@@ -549,6 +549,9 @@ class Tdf:
         """Replace a block of the same type with a new one. This is done by
         removing the old block and adding the new one."""
 
+        if newBlock.type == BlockType.unusedSlot:
+            raise ValueError("An unused slot can't be replaced")
+
         old_entry = next((i for i in self.entries if i.type == newBlock.type), None)
 
         if old_entry is None:
